@@ -234,11 +234,14 @@ def _accumulator(col, rule="C05.R3"):
         for nid in cfg.nodes:
             for d in sx.cx.rd.defs.get(nid, []):
                 if d.name == out[2] and d.kind == "assign":
+                    # what the name could hold just before this assignment: handing one of those back (through a helper's result,
+                    # say) replaces nothing
+                    held = set(S.instances(sx.sym.of(ast.Name(id=out[2], ctx=ast.Load()), nid)))
                     for v, cs in sx.guarded_values(d.value, nid):
                         for a in S.instances(v):
-                            if a == out:
+                            if a == out or a in held:
                                 continue
-                            if _is_fresh(a) and ("cmp", "is", out, ("const", "None")) in cs:
+                            if _is_fresh(a) and any(c[:2] == ("cmp", "is") and c[3] == ("const", "None") and out in S.alts(c[2]) for c in cs):
                                 continue
                             bad.append(f"{A.src(d.stmt)}: {S.show(a)} under {[S.show(c) for c in cs]}")
         col.add(rule, f"{q}#adds-into-given-accumulator", not bad, sx.loc(sx.fn),
